@@ -315,14 +315,13 @@ func (c *Wallet) checkAuth(authToken string) error {
 // checkSession rejects every auth token that is not a live token of this wallet's user.
 // It guards the features which need neither the content store nor the key manager of the session
 // and therefore would not notice an unknown, closed or expired token by themselves.
+// The session is only looked up, its expiry is not extended.
 func (c *Wallet) checkSession(authToken string) error {
-	if err := c.checkAuth(authToken); err != nil {
-		return err
+	if !sessionManager().ownedBy(authToken, c.userID) {
+		return ErrInvalidAuthToken
 	}
 
-	_, err := sessionManager().getSession(authToken)
-
-	return err
+	return nil
 }
 
 // Export produces a serialized exported wallet representation.
